@@ -246,7 +246,7 @@ macro_rules! ks_backend {
             };
             let garbage = |v: &mut VecZnx<Vec<u8>>| {
                 for (i, x) in v.raw_mut().iter_mut().enumerate() {
-                    *x = 0x1234 + 7 * i as i64;
+                    *x = crate::fillpat::pat(0x1234 + 7 * i as i64, i);
                 }
             };
             let glwe_in_infos = GLWELayout { n: Degree(n as u32), base2k: Base2K(c.bin as u32), k: TorusPrecision(c.kin as u32), rank: Rank(c.rin as u32) };
@@ -494,6 +494,19 @@ macro_rules! ks_backend {
                             Dnum(c.rdnum as u32),
                             Dsize(c.adsize as u32),
                         );
+                        // C11: the result starts from garbage (was freshly allocated, i.e. zero)
+                        {
+                            use poulpy_core::layouts::GGLWEToMut;
+                            let mut gm = res.to_mut();
+                            let (dn, ri): (usize, usize) = (gm.dnum().into(), gm.rank_in().into());
+                            for r in 0..dn {
+                                for ci in 0..ri {
+                                    for (i, x) in gm.at_mut(r, ci).data_mut().raw_mut().iter_mut().enumerate() {
+                                        *x = crate::fillpat::pat(0x2468 + 5 * i as i64, i + 977 * (r * 16 + ci));
+                                    }
+                                }
+                            }
+                        }
                         module.gglwe_keyswitch(&mut res, &a, &bp, scratch.borrow());
                         res_txt = fmt_gglwe(&res);
                     } else {
@@ -551,6 +564,19 @@ macro_rules! ks_backend {
                             Dnum(c.rdnum as u32),
                             Dsize(c.adsize as u32),
                         );
+                        // C11: the result starts from garbage (was freshly allocated, i.e. zero)
+                        {
+                            use poulpy_core::layouts::GGLWEToMut;
+                            let mut gm = res.to_mut();
+                            let (dn, ri): (usize, usize) = (gm.dnum().into(), gm.rank_in().into());
+                            for r in 0..dn {
+                                for ci in 0..ri {
+                                    for (i, x) in gm.at_mut(r, ci).data_mut().raw_mut().iter_mut().enumerate() {
+                                        *x = crate::fillpat::pat(0x1357 + 3 * i as i64, i + 977 * (r * 16 + ci));
+                                    }
+                                }
+                            }
+                        }
                         module.glwe_automorphism_key_automorphism(&mut res, &a, &kp, scratch.borrow());
                         res_txt = format!("{}:{}", res.p(), fmt_gglwe(&res));
                     } else {
@@ -637,7 +663,7 @@ macro_rules! ks_backend {
                         for r in 0..c.rdnum {
                             for ci in 0..rank + 1 {
                                 for (i, x) in res.at_mut(r, ci).data_mut().raw_mut().iter_mut().enumerate() {
-                                    *x = 0x7777 + i as i64;
+                                    *x = crate::fillpat::pat(0x7777 + i as i64, i);
                                 }
                             }
                         }
@@ -858,6 +884,7 @@ pub fn run(_args: &[String]) {
     let mut out = std::io::BufWriter::new(stdout.lock());
     for line in stdin.lock().lines() {
         let line = line.unwrap();
+        crate::fillpat::set_from_line(&line);
         let toks: Vec<&str> = line.split_whitespace().collect();
         if toks.is_empty() {
             continue;
